@@ -1,7 +1,7 @@
 (* C05 — the query parser: what is proved about acceptance.  Statements only. *)
 From Coq Require Import List.
 From GQL.model Require Import Base Utf8 Lexer Ast Parser Prog ParseQuery.
-From GQL.proofs Require Import ParserTotal NumberGrammar TypeRoundtrip TokenStream JsonRoundtrip ParseComplete Sizes.
+From GQL.proofs Require Import ParserTotal NumberGrammar TypeRoundtrip TokenStream JsonRoundtrip ParseComplete Sizes ParseSchemaComplete SchemaSizes Layout.
 Import ListNotations.
 
 (* Acceptance is a statement about the whole string: a document is returned only after the parser
@@ -85,3 +85,12 @@ Proof.
     apply (toks_punct dev_none 125%N BraceR); [reflexivity|discriminate|discriminate|discriminate|].
     apply toks_eof.
 Qed.
+
+(* Layout independence: two texts that the lexer reads as the same tokens of a grammatical document are
+   parsed as the same document, positions aside — blanks, commas, line ends, comments and the BOM never
+   reach the tree. *)
+Theorem C05_layout_independent : forall d q in1 in2,
+  doc_wok d q -> toks d in1 (flat_doc q) -> toks d in2 (flat_doc q) ->
+  exists q1 q2, parseQuery d 0 in1 = POk q1 /\ parseQuery d 0 in2 = POk q2 /\ erase_qdoc q1 = erase_qdoc q2.
+Proof. exact query_layout_independent. Qed.
+Print Assumptions C05_layout_independent.
